@@ -26,6 +26,7 @@ DECIDED = [
     "ORDER-4 load: on the `url in self.loading` branch join() precedes pop() precedes the retry, which ends the call",
     "ORDER-5 _load: the only store into the shared table follows from_file(...) and finalize(); nothing else writes the table except clear() in refresh",
     "DOM-7 the repository and include setters call deferred_load before load",
+    "PARSE-2 the loaders' XML parser does not repair malformed input (a truncated resource yields None, never a cached partial document)",
     "SIB-4 terminology and templates agree on the clauses above",
 ]
 NOT_DECIDED = ["equivalence of all interleavings / linearizability", "data races on the unlocked loaded/loading dictionaries",
@@ -41,6 +42,12 @@ def _node_with(g, pred):
 def run(prog, rep):
     rep.decided = DECIDED
     rep.not_decided = NOT_DECIDED
+
+    # ----------------------------------------------------------------- PARSE-2
+    rep.rule("PARSE-2", "the XMLParser the loaders read with is built without recover=<anything but False>: a resource that is cut off or "
+                        "otherwise malformed makes from_file raise ParserException, which _load turns into None")
+    from .c16 import xml_parser_options
+    xml_parser_options(prog, rep, "PARSE-2", ("recover",))
 
     # ----------------------------------------------------------------- ORDER-2
     rep.rule("ORDER-2", "cache_load: the node that opens the cache file for writing is dominated by the statements "
